@@ -8,7 +8,8 @@
      ExclZ     a closepath is followed only by a moveto or a closepath             (known: C05 z-L)
      ExclDeg   no smooth curveto directly after a curve whose control points coincide
                exactly with its end points                                          (known: C05 deg-S)
-     ExclZeroL no smooth curveto after a zero-length lineto that follows a curve    (known: C05 C-L0-S)
+     ExclZeroL no lineto or curve that is (after simplification) a zero-length line directly
+               after a curve                                                        (known: C05 C-L0-S)
 
    Token encoding: a command letter is its byte (65..122); a number is 1000000 + v where v is the
    abstract coordinate (an integer; the driver decides how many decimals it stands for and in
@@ -20,8 +21,7 @@ vars == <<toks, cmd, k, g, vals, st, fl>>
 
 \* fl: what the exclusions need to know about the previous group
 \*   dc/dq  it was an exactly degenerate cubic / quadratic
-\*   zc/zq  it was a zero-length lineto (or a run of them) directly after a cubic / quadratic
-Fl0 == [dc |-> FALSE, dq |-> FALSE, zc |-> FALSE, zq |-> FALSE]
+Fl0 == [dc |-> FALSE, dq |-> FALSE]
 
 Init == toks = <<>> /\ cmd = 0 /\ k = 0 /\ g = 0 /\ vals = <<>> /\ st = S0 /\ fl = Fl0
 
@@ -35,14 +35,13 @@ Allowed(c) ==
   /\ (ExclZ /\ IsClose(cmd)) => c \in {77, 109, 90, 122}
   /\ (ExclDeg /\ fl.dc) => ~SmoothC(c)
   /\ (ExclDeg /\ fl.dq) => ~SmoothQ(c)
-  /\ (ExclZeroL /\ fl.zc) => ~SmoothC(c)
-  /\ (ExclZeroL /\ fl.zq) => ~SmoothQ(c)
 
-FlagsAfter(old, seg) ==
-  LET zero == ZeroLine(seg) IN
-  [dc |-> DegCubic(seg), dq |-> DegQuad(seg),
-   zc |-> zero /\ (old.pk = "C" \/ fl.zc),
-   zq |-> zero /\ (old.pk = "Q" \/ fl.zq)]
+FlagsAfter(old, seg) == [dc |-> DegCubic(seg), dq |-> DegQuad(seg)]
+\* a lineto, or a curve that simplifies to a line, of length zero directly after a curve: the
+\* shortener drops it and lets the next command follow the curve (H, V, A, M are never dropped)
+ZeroAfterCurve(old, letter, seg) ==
+  /\ old.pk # "N" /\ ZeroLine(Simplify(seg))
+  /\ letter \in {76, 108, 67, 99, 83, 115, 81, 113, 84, 116}
 
 Letter(c) ==
   /\ AtBoundary /\ Allowed(c)
@@ -62,6 +61,7 @@ Number(v) ==
   /\ cmd' = cmd
   /\ IF k + 1 = Arity(cmd)
      THEN LET r == StepGroup(st, GroupLetter(cmd, g + 1), Append(vals, v)) IN
+          /\ ExclZeroL => ~ZeroAfterCurve(st, GroupLetter(cmd, g + 1), r.seg)
           /\ st' = r.st /\ fl' = FlagsAfter(st, r.seg) /\ k' = 0 /\ g' = g + 1 /\ vals' = <<>>
      ELSE /\ k' = k + 1 /\ vals' = Append(vals, v) /\ UNCHANGED <<st, g, fl>>
 
